@@ -140,6 +140,14 @@ func init() {
 
 		"mvdan.cc/garble/internal/ctrlflow.setUnexportedField": setUnexportedField,
 
+		// --- go/constant integers holding a symbolic value (e.g. dispatcher keys in ssa.Const):
+		// their decimal text is a literal marker, like the asthelper literals below
+		"(go/constant.int64Val).String": func(fr *frame, args []value) value {
+			if !containsSymDeep(args[0]) {
+				return notHandled{}
+			}
+			return fr.i.ex.newSymLit(args[0])
+		},
 		// --- asthelper literals with symbolic arguments
 		"mvdan.cc/garble/internal/asthelper.IntLit":    symLitExt(false),
 		"mvdan.cc/garble/internal/asthelper.UintLit":   symLitExt(false),
